@@ -68,6 +68,10 @@ MUTANTS = [
       "                \"Can not evaluate YAQL expression [expression=%s, "
       "error=%s]\"\n                % (expression, str(e))\n            )\n"
       "            result = None"),
+    m('C01-undeclared-error-escapes', 'C01', ['R11'], E + 'dispatcher.py',
+      "            raise exc.MistralError('Unsupported workflow command: %s' "
+      "% cmd)",
+      "            raise TypeError('Unsupported workflow command: %s' % cmd)"),
     # ---------------------------------------------------------------- C02
     m('C02-complete-ignores-cas', 'C02', ['R1'], E + 'tasks.py',
       "        if not self.set_state(state, state_info):\n            return\n"
@@ -515,6 +519,11 @@ MUTANTS = [
     m('C13-job-path-typo', 'C13', ['R6'], E + 'policies.py',
       "_COMPLETE_TASK_PATH = 'mistral.engine.policies._complete_task'",
       "_COMPLETE_TASK_PATH = 'mistral.engine.policies._complete_tsk'"),
+    m('C13-unlocked-heap-access', 'C13', ['R8'],
+      'mistral/scheduler/default_scheduler.py',
+      "        with self._cond:\n"
+      "            in_memory_jobs = list(self.in_memory_jobs.values())",
+      "        in_memory_jobs = list(self.in_memory_jobs.values())"),
     # ---------------------------------------------------------------- C14
     m('C14-plain-yaml-load', 'C14', ['R1'], 'mistral/services/workflows.py',
       "from mistral.utils import safe_yaml",
@@ -544,6 +553,14 @@ MUTANTS = [
       "        self._name = data['name']",
       "        self._name = data['name']\n\n"
       "        super(WorkflowSpec, self).__init__(data, validate)"),
+    m('C14-helper-raises-keyerror', 'C14', ['R8'],
+      'mistral/expressions/__init__.py',
+      "                raise exc.ExpressionGrammarException(\n"
+      "                    \"The line already contains an expression of type "
+      "'%s'. \"",
+      "                raise KeyError(\n"
+      "                    \"The line already contains an expression of type "
+      "'%s'. \""),
     # ---------------------------------------------------------------- C15
     m('C15-secure-query-drops-project', 'C15', ['R1'], D + 'api.py',
       "    query_criterion = sa.or_(\n"
@@ -730,6 +747,13 @@ MUTANTS = [
     m('C20-recover-any-task', 'C20', ['R4'], E + 'workflow_handler.py',
       "            if all_finished:\n                # Find the timestamp",
       "            if True:\n                # Find the timestamp"),
+    m('C20-heartbeat-leak', 'C20', ['R5'],
+      'mistral/executors/default_executor.py',
+      "        finally:\n"
+      "            action_heartbeat_sender.remove_action(action_ex_id)",
+      "        except Exception:\n"
+      "            action_heartbeat_sender.remove_action(action_ex_id)\n"
+      "            raise"),
 ]
 
 
